@@ -37,6 +37,15 @@ func families(c *ev.Ctx) {
 			}
 		}
 	}
+	// raw multi-byte characters of every byte-class combination (and DEL) in values and keys: valid JSON
+	for _, ch := range rep.UTF8Chars {
+		for _, t := range rep.UTF8Texts(ch) {
+			for _, tr := range []bool{false, true} {
+				compare(c, t, tr, "utf8 family")
+				c.Eval(true)
+			}
+		}
+	}
 	c.Bound("family_corpus_items", len(corpus))
 	for _, doc := range corpus {
 		for _, tr := range []bool{false, true} {
